@@ -68,7 +68,7 @@ class ChangeSet(Change):
                 done.append(change)
             self.time = time.time()
         except Exception:
-            for change in done:
+            for change in reversed(done):
                 change.undo()
             raise
 
@@ -79,7 +79,7 @@ class ChangeSet(Change):
                 change.undo(job_set)
                 done.append(change)
         except Exception:
-            for change in done:
+            for change in reversed(done):
                 change.do()
             raise
 
